@@ -430,6 +430,9 @@ struct SctpInner {
     /// above is the receive side: the peer's TSNs we have acknowledged).
     peer_cum_tsn_ack: AtomicU32,
     forward_tsn_pending: AtomicBool,
+    /// When the last FORWARD-TSN went out; it is repeated every RTO until the peer's
+    /// cumulative ack reaches the advanced peer ack point (RFC 3758 3.5).
+    forward_tsn_sent_at: Mutex<Option<Instant>>,
     forward_tsn_streams: Mutex<Vec<(u16, u16)>>,
     has_pr_sctp: AtomicBool,
 
@@ -887,6 +890,7 @@ impl SctpTransport {
             advanced_peer_ack_tsn: AtomicU32::new(0),
             peer_cum_tsn_ack: AtomicU32::new(0),
             forward_tsn_pending: AtomicBool::new(false),
+            forward_tsn_sent_at: Mutex::new(None),
             forward_tsn_streams: Mutex::new(Vec::new()),
             has_pr_sctp: AtomicBool::new(false),
             last_send_or_ack: Mutex::new(Instant::now()),
@@ -1233,11 +1237,31 @@ impl SctpInner {
                 self.maybe_send_tlp_probe(now);
             }
 
+            // 6. FORWARD-TSN repetition: nothing else retransmits it (the abandoned
+            // chunks it stands for are gone from the sent queue)
+            let fwd_tsn_timeout = match *self.forward_tsn_sent_at.lock() {
+                Some(sent)
+                    if tsn_gt(
+                        self.advanced_peer_ack_tsn.load(Ordering::SeqCst),
+                        self.peer_cum_tsn_ack.load(Ordering::SeqCst),
+                    ) =>
+                {
+                    let expiry = sent + Duration::from_secs_f64(rto_snapshot);
+                    if expiry > now {
+                        expiry - now
+                    } else {
+                        Duration::from_millis(1)
+                    }
+                }
+                _ => Duration::from_secs(3600),
+            };
+
             let sleep_duration = rto_timeout
                 .min(heartbeat_timeout)
                 .min(t1_timeout)
                 .min(sack_timeout)
-                .min(tlp_timeout);
+                .min(tlp_timeout)
+                .min(fwd_tsn_timeout);
 
             tokio::select! {
                 _ = close_rx.notified() => {
@@ -1288,6 +1312,24 @@ impl SctpInner {
                     // because they might be close.
                     if let Err(e) = self.handle_timeout().await {
                         trace!("SCTP handle timeout error: {}", e);
+                    }
+
+                    // Repeat an unacknowledged FORWARD-TSN once its RTO has passed
+                    let repeat_fwd_tsn = match *self.forward_tsn_sent_at.lock() {
+                        Some(sent) => {
+                            Instant::now() >= sent + Duration::from_secs_f64(rto_snapshot)
+                                && tsn_gt(
+                                    self.advanced_peer_ack_tsn.load(Ordering::SeqCst),
+                                    self.peer_cum_tsn_ack.load(Ordering::SeqCst),
+                                )
+                        }
+                        None => false,
+                    };
+                    if repeat_fwd_tsn {
+                        self.forward_tsn_pending.store(true, Ordering::SeqCst);
+                        if let Err(e) = self.transmit().await {
+                            trace!("Transmit error: {}", e);
+                        }
                     }
 
                     // Check Heartbeat Timer
@@ -3683,6 +3725,7 @@ impl SctpInner {
                 && let Some(fwd_chunk) = self.create_forward_tsn_chunk()
             {
                 chunks_to_send.push(fwd_chunk);
+                *self.forward_tsn_sent_at.lock() = Some(Instant::now());
             }
         }
 
@@ -3757,21 +3800,16 @@ impl SctpInner {
 
         let mut new_advanced = advanced;
         let mut has_abandoned = false;
-        let tsns: Vec<u32> = sent_queue.keys().cloned().collect();
-        for tsn in tsns {
-            if !tsn_gt(tsn, new_advanced) && tsn != new_advanced.wrapping_add(1) {
-                continue;
-            }
-            if tsn != new_advanced.wrapping_add(1) {
-                break;
-            }
-            if let Some(record) = sent_queue.get(&tsn) {
-                if record.abandoned {
-                    new_advanced = tsn;
+        // follow consecutive TSNs from the ack point (the map's key order is numeric,
+        // which is not TSN order once the sent queue straddles the 2^32 wrap)
+        loop {
+            let next = new_advanced.wrapping_add(1);
+            match sent_queue.get(&next) {
+                Some(record) if record.abandoned => {
+                    new_advanced = next;
                     has_abandoned = true;
-                } else {
-                    break;
                 }
+                _ => break,
             }
         }
 
@@ -3797,8 +3835,18 @@ impl SctpInner {
                 }
             }
             {
+                // merged with what an earlier, still unacknowledged FORWARD-TSN announced
                 let mut fwd = self.forward_tsn_streams.lock();
-                *fwd = stream_ssn.into_iter().collect();
+                for (sid, ssn) in stream_ssn {
+                    match fwd.iter_mut().find(|(s, _)| *s == sid) {
+                        Some(e) => {
+                            if ssn_gt(ssn, e.1) {
+                                e.1 = ssn;
+                            }
+                        }
+                        None => fwd.push((sid, ssn)),
+                    }
+                }
             }
             for t in remove {
                 sent_queue.remove(&t);
@@ -3814,13 +3862,14 @@ impl SctpInner {
         let advanced = self.advanced_peer_ack_tsn.load(Ordering::SeqCst);
         let last_sacked = self.peer_cum_tsn_ack.load(Ordering::SeqCst);
         if !tsn_gt(advanced, last_sacked) {
+            // acknowledged: nothing left to repeat
+            self.forward_tsn_streams.lock().clear();
+            *self.forward_tsn_sent_at.lock() = None;
             return None;
         }
 
-        let stream_ssn_pairs: Vec<(u16, u16)> = {
-            let mut fwd = self.forward_tsn_streams.lock();
-            std::mem::take(&mut *fwd)
-        };
+        // kept until the peer acknowledges the new ack point: a lost FORWARD-TSN is repeated
+        let stream_ssn_pairs: Vec<(u16, u16)> = self.forward_tsn_streams.lock().clone();
 
         let pair_bytes = stream_ssn_pairs.len() * 4;
         let mut body = BytesMut::with_capacity(4 + pair_bytes);
